@@ -10,6 +10,9 @@ C05 — without extrapolation a query is answered iff it lies in the closed axis
 * `C05_batch_ok_iff`, `C05_batch_first_error` : a batch is `Ok` iff every element is answered;
   otherwise the batch returns the error of the first offending element in logical order and no
   later element is evaluated (generic over the strategy: used for every entry point).
+* `C05_witness`, `C05_linear_names_first` : the element a rejected batch is rejected *for* is the first
+  one (logical order) failing `is_in_range` — what `oobWitness1/2` of the model compute and the
+  protocol carries as the payload of `oob`.
 * spline variants are in `NdInterp.Props.C02` (`C05_spline`), where the spline lemmas live.
 -/
 import NdInterp.Lemmas.LinearCore
@@ -182,5 +185,54 @@ theorem C05_witness (f : β → Except Fault (List α)) (rej : β → Bool)
   simp [List.find?_cons, hq']
 
 end witness
+
+section linear_witness
+variable {α : Type} [Field α] [LinearOrder α] [IsStrictOrderedRing α]
+  [Cmp α] [LawfulCmp α] [ToUsize α] [LawfulToUsize α]
+
+omit [IsStrictOrderedRing α] [ToUsize α] [LawfulToUsize α] in
+/-- `rejected` is the negation of the closed-range test -/
+theorem rejected_iff (xs : List α) (q : α) (h0 : 0 < xs.length) :
+    rejected xs q = false ↔ InRange xs q := by
+  unfold rejected
+  rw [isInRange_eq xs q h0]
+  by_cases h : InRange xs q <;> simp [h]
+
+/-- **C05_linear_names_first**: a rejected Linear batch (1-D data) names the model's witness
+    `oobWitness1`: the first query element outside the closed range. -/
+theorem C05_linear_names_first (xs ys : List α) (qs : List α) (hs : StrictInc xs)
+    (hl : ys.length = xs.length) (hlen : xs.length < 2 ^ 64) (e : Fault)
+    (h : interpEach (fun q => (linearInterp (V := α) false xs ys q).map (fun v => [v])) qs = .error e) :
+    ∃ w, oobWitness1 xs qs = some w ∧ ¬ InRange xs w ∧ e = .outOfBounds := by
+  have h0 : 0 < xs.length := by have := hs.1; omega
+  have hrej : ∀ q, rejected xs q = false ↔
+      ∃ v, (linearInterp (V := α) false xs ys q).map (fun v => [v]) = .ok v := by
+    intro q
+    rw [rejected_iff xs q h0]
+    obtain ⟨a, b⟩ := C05_linear (V := α) xs ys q hs hl hlen
+    constructor
+    · intro hin
+      obtain ⟨v, hv⟩ := a hin
+      exact ⟨[v], by rw [hv]; rfl⟩
+    · rintro ⟨v, hv⟩
+      by_contra hout
+      rw [b hout] at hv
+      cases hv
+  obtain ⟨w, hw, hfw⟩ := C05_witness _ (rejected xs) hrej qs e h
+  refine ⟨w, hw, ?_, ?_⟩
+  · intro hin
+    have := (hrej w).mp ((rejected_iff xs w h0).mpr hin)
+    obtain ⟨v, hv⟩ := this
+    rw [hv] at hfw; cases hfw
+  · have hout : ¬ InRange xs w := by
+      intro hin
+      obtain ⟨v, hv⟩ := (hrej w).mp ((rejected_iff xs w h0).mpr hin)
+      rw [hv] at hfw; cases hfw
+    have := (C05_linear (V := α) xs ys w hs hl hlen).2 hout
+    rw [this] at hfw
+    simp [Except.map] at hfw
+    exact hfw.symm
+
+end linear_witness
 
 end NdInterp
